@@ -167,12 +167,14 @@ CLAIMS = {
              'pyparsing text->AST step of IfExpression (skeletons are parsed by the real grammar but only enumerated).'),
     'C04': dict(
         engine='X',
-        technique='CrossHair+z3 enumeration of project shapes and invocation histories through the real RecipeSet.parse / generatePackages / Recipe.prepare memoisation, the real persisted pickle / sqlite caches and the real path query, '
+        technique='CrossHair+z3 symbolic execution of Env touch tracking / StringParser on symbolic strings (non-interference); CrossHair+z3 enumeration of project shapes and invocation histories through the real RecipeSet.parse / generatePackages / Recipe.prepare memoisation, the real persisted pickle / sqlite caches and the real path query, '
                   'compared with the same real code with memo lookup and by-id merging disabled in a fresh directory',
         text='For a generated project of 11 recipes with 11 symbolic feature bits (which of leaf/mid/top consume a variable that two parents set differently, direct and transitive reachability, dependency order, '
              'conditional dependency on the sandbox state, provided variables, earlier visits with the variable unset) and for histories of 2 (quick) / 3 (thorough) invocations in one project directory with symbolic '
              'sandbox on/off, -D override and a recipe edit: the package graph (every path, package-step variant id, environment, digest script, tools, sandbox flag, direct and indirect dependency names) and the result of '
-             'the query //* are identical to those computed by the same code with PackageMatcher.matches forced to False, no merging by result id, and no on-disk caches.',
+             'the query //* are identical to those computed by the same code with PackageMatcher.matches forced to False, no merging by result id, and no on-disk caches. '
+             'Touch kernel (symbolic strings through the real Env/StringParser): for every string up to length 2-3 (thorough 5) and 5 (thorough 18) syntactic skeletons with symbolic holes, changing one '
+             'variable / tool that the run did not report in touchedKeys() changes neither the outcome nor the touched sets.',
         design_ref='DESIGN.md section 4, C04',
         note='Trusted: the uncached reference is the same real code with the two reuse points disabled. Outside: class / include / default.yaml / layer edits, tool and plugin-state touches, projects beyond the generated family, '
              'cache key collisions of the on-disk caches (sha1 / stat granularity).'),
